@@ -224,10 +224,14 @@ func matchPC(p *syntax.Prog) int {
 }
 
 // regexpPattern extracts the pattern carried by an interpreter *regexp.Regexp object.
-func regexpPattern(v value) string {
+func regexpPatternAt(fr *frame, v value) string {
 	p, ok := v.(*value)
 	if !ok || p == nil {
-		unsup("regexp receiver is not an object carrying its pattern")
+		where := ""
+		if fr != nil && fr.caller != nil && fr.caller.fn != nil {
+			where = " (nil *regexp.Regexp used in " + fr.caller.fn.String() + ": package initialiser not run?)"
+		}
+		unsup("regexp receiver is not an object carrying its pattern%s", where)
 	}
 	st, ok := (*p).(structure)
 	if !ok || len(st) == 0 {
@@ -277,14 +281,14 @@ func init() {
 		return tuple{fr.i.newRegexpObject(s), iface{}}
 	}
 	intrinsics["(*regexp.Regexp).MatchString"] = func(fr *frame, args []value) value {
-		pat := regexpPattern(args[0])
+		pat := regexpPatternAt(fr, args[0])
 		if s, ok := args[1].(string); ok {
 			return regexp.MustCompile(pat).MatchString(s)
 		}
 		return fr.i.mkval(fr.i.matchTerm(pat, args[1]), types.Bool)
 	}
 	intrinsics["(*regexp.Regexp).Match"] = func(fr *frame, args []value) value {
-		pat := regexpPattern(args[0])
+		pat := regexpPatternAt(fr, args[0])
 		s := normStr(args[1].([]value))
 		if cs, ok := s.(string); ok {
 			return regexp.MustCompile(pat).MatchString(cs)
@@ -292,7 +296,7 @@ func init() {
 		return fr.i.mkval(fr.i.matchTerm(pat, s), types.Bool)
 	}
 	intrinsics["(*regexp.Regexp).ReplaceAllString"] = func(fr *frame, args []value) value {
-		pat := regexpPattern(args[0])
+		pat := regexpPatternAt(fr, args[0])
 		src, ok1 := args[1].(string)
 		repl, ok2 := args[2].(string)
 		if !ok1 || !ok2 {
@@ -301,7 +305,7 @@ func init() {
 		return regexp.MustCompile(pat).ReplaceAllString(src, repl)
 	}
 	intrinsics["(*regexp.Regexp).FindStringSubmatch"] = func(fr *frame, args []value) value {
-		pat := regexpPattern(args[0])
+		pat := regexpPatternAt(fr, args[0])
 		src, ok := args[1].(string)
 		if !ok {
 			unsup("regexp FindStringSubmatch on a symbolic string")
@@ -317,7 +321,7 @@ func init() {
 		return out
 	}
 	intrinsics["(*regexp.Regexp).String"] = func(fr *frame, args []value) value {
-		return regexpPattern(args[0])
+		return regexpPatternAt(fr, args[0])
 	}
 	intrinsics["regexp.MatchString"] = func(fr *frame, args []value) value {
 		pat, ok := args[0].(string)
